@@ -202,7 +202,7 @@ pub fn run(ctx: &Ctx) -> Report {
     let mut report = Report::new();
     let active = active_findings(ctx, &mut report);
     let thorough = ctx.thorough();
-    let depth = if thorough { 7 } else { 5 };
+    let depth = if thorough { 8 } else { 5 };
     let mut modules = BTreeMap::new();
     modules.insert("m".to_string(), "print(\"load m\");\nvar v = 10;\n".to_string());
 
